@@ -28,8 +28,11 @@ RULE = ("audit histories: simulated election x 2-5 rounds of non-decreasing size
         "number than a card already selected; distinct = hash of (spec, size vectors)")
 REQUIRED = ["histories", "rounds:redraw", "rounds:continue", "append_checked", "monotone_checked", "continue_equals_redraw_checked",
             "round_adds_card_before_already_selected", "round_without_change", "contest_full_hand_count", "style_on", "style_off",
-            "p_decreased", "proved_carried_over", "fine_grained_histories", "histories_after_a_dry_run"]
-ASSUMPTIONS = ["polling is only generated without style (the library gives it the whole sample); without style the sample "
+            "p_decreased", "proved_carried_over", "fine_grained_histories", "histories_after_a_dry_run",
+            "confirmed_earlier_and_risk_now_above_limit"]
+ASSUMPTIONS = ["the 'measured risk is non-increasing' clause is asserted for tests configured with random_order=True (the "
+               "factories' setting); for random_order=False the overall value is the last history entry, so only the "
+               "append clause and the kept confirmation are asserted there", "polling is only generated without style (the library gives it the whole sample); without style the sample "
                "is the first n cards in sample-number order, so the append clause is well-defined there too"]
 N_CASES = {"quick": 8000, "thorough": 64000}
 
@@ -96,6 +99,7 @@ def run_shard(spec, rec):
             es["_fine"] = rng.randint(6, 12)
         es["_rseed"] = rng.randrange(10 ** 9)
         es["_dry_run"] = rng.random() < 0.3
+        es["_fixed_order_tests"] = rng.random() < 0.15
         run_case(es, rec)
 
 
@@ -116,6 +120,13 @@ def run_variant(es, rounds, variant, rec):
             con.sample_threshold = None
         rec.count("histories_after_a_dry_run")
     A = sim.L["Assertion"]
+    if es.get("_fixed_order_tests"):
+        # tests configured for data that are not in random order: the measured risk is the LAST history entry and may
+        # rise with more data; what must still hold is that the data are extended and that a confirmation is kept
+        for con in sim.contests.values():
+            for asn in con.assertions.values():
+                if getattr(asn.test.test, "__name__", "") != "wald_sprt":
+                    asn.test.random_order = False
     hist = []
     prev = None
     sink = io.StringIO()
@@ -203,7 +214,11 @@ def run_case(es, rec):
                 rec.count("monotone_checked")
                 if p1 < p0:
                     rec.count("p_decreased")
-                if not (p1 <= p0 + 1e-12 * abs(p0) or (math.isnan(p0) and math.isnan(p1))):
+                if es.get("_fixed_order_tests"):
+                    rec.count("risk_monotonicity_not_asserted:random_order_false")
+                    if pr0 and p1 > sim.contests[key[0]].risk_limit:
+                        rec.count("confirmed_earlier_and_risk_now_above_limit")
+                elif not (p1 <= p0 + 1e-12 * abs(p0) or (math.isnan(p0) and math.isnan(p1))):
                     rec.violation("c10.monotone", f"{variant}:measured_risk_increased", {"round": r + 1, "contest": key[0],
                                                                                          "assertion": key[1], "p_before": p0, "p_after": p1})
                     return
